@@ -88,14 +88,24 @@ impl Cx<'_> {
             self.terminal()
         }
     }
-    fn any_symbol(&mut self) -> Value {
+    fn any_symbol(&mut self, from: usize) -> Value {
         let all: Vec<String> = self.visible.iter().chain(self.hidden.iter()).cloned().collect();
         if all.len() == 1 && self.start_nullable {
             return self.terminal();
         }
         // a start rule that matches the empty string may not be referenced
         let lo = if self.start_nullable { 1 } else { 0 };
-        let k = self.rng.range(lo, all.len() - 1);
+        let mut k = self.rng.range(lo, all.len() - 1);
+        // hidden rules are expanded in place: recursion among hidden rules (e.g. `_h: seq(_h, x)`)
+        // is kept out of the random grammars (a hidden rule only mentions LATER hidden rules);
+        // recursion through visible rules is unrestricted
+        if all[from].starts_with('_') && all[k].starts_with('_') && k <= from {
+            if from + 1 < all.len() {
+                k = self.rng.range(from + 1, all.len() - 1);
+            } else {
+                return self.terminal();
+            }
+        }
         self.wrap_symbol(&all[k].clone())
     }
     fn wrap_symbol(&mut self, name: &str) -> Value {
@@ -118,7 +128,7 @@ impl Cx<'_> {
                 if acyclic {
                     self.later_symbol(idx)
                 } else {
-                    self.any_symbol()
+                    self.any_symbol(idx)
                 }
             }
             4 => {
@@ -168,7 +178,7 @@ impl Cx<'_> {
         } else if acyclic {
             ms.push(self.later_symbol(idx));
         } else {
-            ms.push(self.any_symbol());
+            ms.push(self.any_symbol(idx));
         }
         let n = self.rng.below(4);
         for _ in 0..n {
